@@ -1599,6 +1599,9 @@ def _handle_count_stage(in_collection, database, options):
         raise OperationFailure('the count field cannot be a $-prefixed path')
     elif '.' in options:
         raise OperationFailure("the count field cannot contain '.'")
+    if not in_collection:
+        # MongoDB does not output any document when there is nothing to count.
+        return []
     return [{options: len(in_collection)}]
 
 
